@@ -211,25 +211,34 @@ class PyReader:
             elif isinstance(s, ast.Match):
                 subject = self.ev(s.subject, env, fns)
                 for case in s.cases:
-                    pat = case.pattern
-                    if isinstance(pat, ast.MatchValue):
-                        hit = self.ev(pat.value, env, fns) == subject
-                    elif isinstance(pat, ast.MatchSingleton):
-                        hit = subject is pat.value
-                    elif isinstance(pat, ast.MatchAs) and pat.pattern is None:
-                        hit = True
-                        if pat.name:
-                            env[pat.name] = subject
-                    elif isinstance(pat, ast.MatchOr) and all(isinstance(p_, ast.MatchValue) for p_ in pat.patterns):
-                        hit = any(self.ev(p_.value, env, fns) == subject for p_ in pat.patterns)
-                    else:
-                        self.fail(s, "match pattern outside the supported subset")
+                    hit = self.match_pattern(case.pattern, subject, env, fns, s)
                     if hit and case.guard is not None:
                         g_ = self.ev(case.guard, env, fns)
                         hit = bool(g_) if isinstance(g_, bool) else self.fail(case.guard, "guard not decidable")
                     if hit:
                         self.block(case.body, env, fns)
                         break
+            elif isinstance(s, ast.Try):
+                try:
+                    try:
+                        self.block(s.body, env, fns)
+                    except Raised as r:
+                        handler = None
+                        for h in s.handlers:
+                            names = [] if h.type is None else self.class_names(h.type)
+                            if h.type is None or "Exception" in names or "BaseException" in names or r.exc.split(".")[-1] in names \
+                                    or (r.exc.split(".")[-1] == "UnitsError" and "ValueError" in names):
+                                handler = h
+                                break
+                        if handler is None:
+                            raise
+                        if handler.name:
+                            env[handler.name] = ("exception", r.exc)
+                        self.block(handler.body, env, fns)
+                    else:
+                        self.block(s.orelse, env, fns)
+                finally:
+                    self.block(s.finalbody, env, fns)
             elif isinstance(s, ast.Break):
                 raise _Break()
             elif isinstance(s, ast.Continue):
@@ -239,10 +248,34 @@ class PyReader:
             elif isinstance(s, ast.Return):
                 raise _Return(self.ev(s.value, env, fns) if s.value is not None else None)
             elif isinstance(s, ast.Raise):
+                if s.exc is None:
+                    raise Raised("re-raise", getattr(s, "lineno", 0))
                 exc = s.exc.func if isinstance(s.exc, ast.Call) else s.exc
+                if isinstance(exc, ast.Name) and exc.id in env and isinstance(env[exc.id], tuple) and env[exc.id][:1] == ("exception", ):
+                    raise Raised(env[exc.id][1], getattr(s, "lineno", 0))
                 raise Raised(dotted(exc) or "?", getattr(s, "lineno", 0))
             else:
                 self.fail(s, "statement outside the supported subset")
+
+    def match_pattern(self, pat: ast.AST, subject, env: dict, fns: dict, node: ast.AST) -> bool:
+        if isinstance(pat, ast.MatchValue):
+            return self.ev(pat.value, env, fns) == subject
+        if isinstance(pat, ast.MatchSingleton):
+            return subject is pat.value
+        if isinstance(pat, ast.MatchAs) and pat.pattern is None:
+            if pat.name:
+                env[pat.name] = subject
+            return True
+        if isinstance(pat, ast.MatchAs):
+            hit = self.match_pattern(pat.pattern, subject, env, fns, node)
+            if hit and pat.name:
+                env[pat.name] = subject
+            return hit
+        if isinstance(pat, ast.MatchOr):
+            return any(self.match_pattern(p_, subject, env, fns, node) for p_ in pat.patterns)
+        if isinstance(pat, ast.MatchClass) and not pat.patterns and not pat.kwd_patterns:
+            return self.is_instance(subject, self.class_names(pat.cls), pat)
+        self.fail(node, "match pattern outside the supported subset")
 
     def assign(self, t: ast.AST, v, env: dict, node: ast.AST) -> None:
         if isinstance(t, ast.Name):
@@ -289,7 +322,18 @@ class PyReader:
                 return T("pi")
             self.fail(n, "unbound name")
         if isinstance(n, ast.JoinedStr):
-            return "str"  # text of a message: its content is never decided on
+            # text of a message: concrete where its parts are (parameter names, indices), an opaque "<?>" elsewhere
+            parts = []
+            for v_ in n.values:
+                if isinstance(v_, ast.Constant):
+                    parts.append(str(v_.value))
+                else:
+                    try:
+                        x_ = self.ev(v_.value, env, fns)
+                    except AnalysisError:
+                        x_ = None
+                    parts.append(str(x_) if isinstance(x_, (str, int)) and not isinstance(x_, bool) else "<?>")
+            return "".join(parts)
         if isinstance(n, ast.Attribute):
             d = dotted(n)
             if d in ("S.Zero", ):
@@ -354,6 +398,9 @@ class PyReader:
         if isinstance(n, ast.Compare) and len(n.ops) == 1:
             l, r = self.ev(n.left, env, fns), self.ev(n.comparators[0], env, fns)
             o = n.ops[0]
+            hc = self.hook_compare(o, l, r, n)
+            if hc is not NotImplemented:
+                return hc
             if isinstance(o, (ast.Is, ast.IsNot)):
                 res = (l is r) if (l is None or r is None) else (l == r)
                 return res if isinstance(o, ast.Is) else not res
@@ -525,6 +572,22 @@ class PyReader:
         """hook for arithmetic on rule-specific objects; NotImplemented = ordinary arithmetic"""
         return NotImplemented
 
+    def hook_compare(self, o: ast.cmpop, l, r, n: ast.AST):
+        """hook for comparisons of rule-specific objects; NotImplemented = ordinary comparison"""
+        return NotImplemented
+
+    def is_instance(self, v, names: list, n: ast.AST) -> bool:
+        """hook: isinstance(v, <one of the class names>) for rule-specific objects"""
+        self.fail(n, "isinstance outside the modelled classes")
+
+    def class_names(self, n: ast.AST) -> list:
+        if isinstance(n, ast.Tuple):
+            return [x for e in n.elts for x in self.class_names(e)]
+        d = dotted(n)
+        if d is None:
+            self.fail(n, "class expression")
+        return [d.split(".")[-1]]
+
     def hook_method(self, base, attr: str, args: list, kwargs: dict, n: ast.Call):
         """hook for methods of rule-specific objects; NotImplemented = not known"""
         return NotImplemented
@@ -635,7 +698,7 @@ class PyReader:
                 kwargs.update(extra)
         if isinstance(n.func, ast.Attribute) and n.func.attr in ("subs", "items", "values", "keys", "get", "pop", "setdefault", "xreplace") or \
                 (isinstance(n.func, ast.Attribute) and not isinstance(n.func.value, ast.Name)) or \
-                (isinstance(n.func, ast.Attribute) and isinstance(n.func.value, ast.Name) and n.func.value.id in env):
+                (isinstance(n.func, ast.Attribute) and isinstance(n.func.value, ast.Name) and (n.func.value.id in env or self.global_value(n.func.value) is not None)):
             base = None
             try:
                 base = self.ev(n.func.value, env, fns)
